@@ -418,6 +418,8 @@ def r4_base_only(facts, rep):
 
 
 def run(fx, rep, tier):
+    from . import foundation as _fnd
+    _fnd.units(fx["dev"], rep, "C02-F", fx, tier)
     for cfg, facts in fx.items():
         sub = rep if cfg == "dev" else type(rep)(rep.prop, rep.tier)
         r1_canonical(facts, sub)
